@@ -334,7 +334,7 @@ def _patterns(n, F):
         ([0] * (n - 1) + [1], [[0] * (n - 1) + [1]] * F),
     ]
     for pm, fm in base:
-        for how in ("masked_array", "nan", "no_data"):
+        for how in ("masked_array", "nan", "no_data", "no_data=0"):
             if how != "masked_array" and not any(any(r) for r in fm):
                 continue
             pats.append({"pmask": pm, "fmask": [list(r) for r in fm], "how": how})
@@ -349,21 +349,22 @@ def missing(ctx, n, F, pmask, fmask, how):
     pos = sym_matrix(ctx, "x", dim, n)
     vals = sym_matrix(ctx, "f", F, n)
     e = sym_edges(ctx)
-    NO = -999.0
+    NO = 0.0 if how == "no_data=0" else -999.0          # 0 is a legal marker (falsy in Python)
     fm = np.array(fmask, dtype=bool)
     for v in np.asarray(vals, dtype=object).ravel().tolist():
-        ctx.require(ctx.gt(v, -100))          # genuine values are not close to the no_data marker
+        # genuine values are not close to the no_data marker
+        ctx.require(ctx.gt(v, 0.001) if how == "no_data=0" else ctx.gt(v, -100))
     kw = {}
     if how == "masked_array":
         fld = np.ma.array(np.array(vals, dtype=object if ctx.mode == "sym" else float), mask=fm)
     else:
         fld = np.array(vals, dtype=object if ctx.mode == "sym" else float)
         fld[fm] = np.nan if how == "nan" else NO
-        if how == "no_data":
+        if how in ("no_data", "no_data=0"):
             kw["no_data"] = NO
             # documented matching is np.isclose: a value within the default tolerance is missing too
             first = tuple(np.argwhere(fm)[0])
-            fld[first] = NO + 0.005
+            fld[first] = NO + (0.005 if how == "no_data" else 5e-9)
     if pmask is not None:
         kw["mask"] = np.array(pmask, dtype=bool)
     res = run_ve(ctx, pos, fld if F > 1 else fld[0], e, return_counts=True, **kw)
@@ -394,17 +395,23 @@ def missing(ctx, n, F, pmask, fmask, how):
 # 3. directions
 # ---------------------------------------------------------------------------------------
 @contract(P, "vario_estimate/direction-vectors-normalised-and-separation-flag",
-          params=[{"dim": d, "nd": k, "bw": b} for d in (2, 3) for k in (1, 2) for b in (False, True)],
+          params=[{"dim": d, "nd": k, "bw": b, "tolrange": "narrow"} for d in (2, 3) for k in (1, 2) for b in (False, True)] +
+                 [{"dim": d, "nd": 1, "bw": b, "tolrange": "wide"} for d in (2, 3) for b in (False, True)],
           functions=FN + ["variogram/variogram.py:_separate_dirs_test"], bounded=B_SHAPES, nsamples=2, timeout=60)
-def directions(ctx, dim, nd, bw):
+def directions(ctx, dim, nd, bw, tolrange):
     m = ctx.m
     n = 2
     pos = sym_matrix(ctx, "x", dim, n)
     fld = sym_matrix(ctx, "f", 1, n)
     e = sym_edges(ctx)
     d = sym_matrix(ctx, "d", nd, dim, lo=-2.0, hi=2.0)
-    tol = ctx.real("tol", lo=0.05, hi=0.7)
-    ctx.require(ctx.And(ctx.gt(tol, 0), ctx.lt(tol, m.pi / 4)))
+    if tolrange == "narrow":
+        tol = ctx.real("tol", lo=0.05, hi=0.7)
+        ctx.require(ctx.And(ctx.gt(tol, 0), ctx.lt(tol, m.pi / 4)))
+    else:       # up to and including the closed end pi/2 of the documented range: still a directional estimate
+        # (the kernel's angle test is strict: pairs exactly perpendicular to the direction are excluded)
+        tol = ctx.real("tol", lo=0.8, hi=1.5707963267948966)
+        ctx.require(ctx.And(ctx.ge(tol, m.pi / 4), ctx.le(tol, m.pi / 2)))
     norms2 = [sum(d[i, j] * d[i, j] for j in range(dim)) for i in range(nd)]
     for s in norms2:
         ctx.require(ctx.gt(s, 0.01))           # not a zero-length direction
@@ -547,6 +554,60 @@ def sampling(ctx, n, F, idx, masked):
     a = k[0]
     ctx.ensure("positions=subset", ctx.And(ctx.shape_eq(a[2], P0.shape), ctx.eq(a[2], P0)))
     ctx.ensure("fields=same-subset", ctx.And(ctx.shape_eq(a[0], F0.shape), ctx.eq(a[0], F0)))
+
+
+@contract(P, "vario_estimate/automatic-bins-are-the-standard-bins-of-the-points-actually-used",
+          params=[{"sampled": sm, "masked": mk, "latlon": ll} for sm in (False, True) for mk in (False, True)
+                  for ll in (False, True)],
+          functions=FN, bounded=B_SHAPES, nsamples=2)
+def auto_bins(ctx, sampled, masked, latlon):
+    """bin_edges=None: 'standard bins will be generated' -- from the points the estimate is made on:
+    after masked points are removed and after the seeded down-sampling ('estimating on that subset'),
+    in the unit of geo_scale for lat-lon; bin centres returned are the midpoints of those edges"""
+    n, dim = 4, 2
+    pos = sym_matrix(ctx, "x", dim, n, lo=-60.0, hi=60.0)
+    fld = sym_matrix(ctx, "f", 1, n)
+    gsc = ctx.real("geo", lo=0.5, hi=100.0)
+    ctx.require(ctx.gt(gsc, 0))
+    keep = np.ones(n, dtype=bool)
+    kw = {}
+    if masked:
+        keep[1] = False
+        kw["mask"] = ~keep
+    idx = (2, 0) if sampled else tuple(range(int(keep.sum())))
+    if sampled:
+        kw.update(sampling_size=len(idx), sampling_seed=ctx.integer("seed", lo=0, hi=1000))
+    if latlon:
+        kw.update(latlon=True, geo_scale=gsc)
+    edges = np.array([ctx.real("ge%d" % i, lo=0.2 + i, hi=0.9 + i) for i in range(3)], dtype=object)
+    if ctx.mode != "sym":
+        edges = edges.astype(float)
+    seen = []
+
+    def ghost_bins(p, d, ll, **k):
+        seen.append((p, d, ll, k))
+        return edges
+
+    real = V.standard_bins
+    V.standard_bins = ghost_bins
+    GHOST["idx"] = idx if sampled else None
+    try:
+        res = run_ve(ctx, pos, fld[0], None, return_counts=True, **kw)
+    finally:
+        V.standard_bins = real
+        GHOST["idx"] = None
+    P0 = np.asarray(pos, dtype=object)[:, keep][:, list(idx)]
+    ctx.ensure("standard_bins-called-once", len(seen) == 1)
+    if len(seen) != 1:
+        return
+    p, d, ll, k = seen[0]
+    ctx.ensure("standard_bins(points-actually-used)", ctx.And(ctx.shape_eq(p, P0.shape), ctx.eq(p, P0)))
+    ctx.ensure("standard_bins(dim,latlon,geo_scale)", d == dim and bool(ll) == latlon and set(k) <= {"geo_scale", "mesh_type", "bin_no", "max_dist"}
+               and ctx.eq(k.get("geo_scale", 1.0), gsc if latlon else 1.0))
+    a = kernel_call("unstructured_c")[0]
+    ctx.ensure("kernel-bins=standard-bins(/geo_scale-for-latlon)",
+               ctx.eq(a[1], edges / gsc if latlon else edges))
+    ctx.ensure("returned-centres=midpoints", ctx.eq(res[0], (edges[:-1] + edges[1:]) / 2.0))
 
 
 @contract(P, "vario_estimate/no-sampling-when-size>=points", functions=FN, bounded=B_SHAPES, nsamples=2)
